@@ -83,6 +83,28 @@ def cfgs_random(prop, tier, rng):
     return out
 
 
+def cfgs_chain(prop, tier):
+    out = []
+    pats2 = [[('L', (0, 1))] * 3, [('L', (1,)), ('L', (0,)), ('L', (1,)), ('L', (0,))], [('F', (0, 1)), ('F', (0,)), ('F', (0,))], [('L', (0,))] * 3 + [('L', (1,))]]
+    pats3 = [[('L', (0, 1, 2)), ('L', (0,))], [('L', (1,)), ('L', (0,))], [('L', (1,)), ('L', (0,)), ('L', (2,))], [('F', (0, 1, 2)), ('F', (2,)), ('L', (0,))]]
+    versions = (6, 8) if tier == 'quick' else (6, 7, 8, 2, 3)
+    for D, pats in ((2, pats2), (3, pats3)):
+        for (lmin, lmax) in ((2, 3), (1, 3)) + (((1, 2),) if tier == 'thorough' else ()):
+            for version in versions:
+                for bnd in (True, False):
+                    if tier == 'quick' and D == 3 and (lmin, lmax) == (2, 3) and not bnd:
+                        continue
+                    for pi, pat in enumerate(pats):
+                        c = dict(D=D, lmin=lmin, lmax=lmax, version=version, rebalancing=False, boundary=bnd, sfn=1, sfd=10, maxintervals=40 if D == 2 else 30,
+                                 max_hats=(24 if tier == 'quick' else 80) if prop == 'C04' else 6, name='chain D=%d (%d,%d) v%d bnd=%s #%d' % (D, lmin, lmax, version, bnd, pi))
+                        if prop == 'C06':
+                            c['margin'] = None
+                        out.append((c, pat))
+    if tier == 'thorough':
+        out += [(dict(c, rebalancing=True, name=c['name'] + ' rebal'), pat) for c, pat in out if c['version'] == 6]
+    return out
+
+
 def classify_c04(rep, tr, step):
     """cause discriminator for a lost-exactness observation (DESIGN section 6, findings 1 / 1b)"""
     cfg = tr['_script']['cfg']
@@ -137,6 +159,16 @@ def run_prop(prop, tier, seed, finish=True):
         traces.append(tr)
         rep.count(1, key=('rand', json.dumps(tr['_script'], sort_keys=True)))
         rep.sample({'kind': 'random scripted history', 'cfg': tr['_script']['cfg'], 'decisions': tr['_decisions'][:3]}, limit=3)
+    # deterministic chains: repeated refinement towards one end of the domain in some dimensions only (deep one-sided trees next to
+    # untouched regions; a step that refines only ANOTHER dimension than the previous one), observed after every step on one object
+    for c, pat in cfgs_chain(prop, tier):
+        try:
+            tr = P.chain_history(c, pat)
+        except Exception as ex:
+            rep.exclude('chain history %s raised %r' % ({k: c[k] for k in ('D', 'lmin', 'lmax', 'version', 'rebalancing', 'boundary')}, ex))
+            continue
+        traces.append(tr)
+        rep.count(1, key=('chain', json.dumps(tr['_script'], sort_keys=True)))
     tm['random_histories'] = time.time() - t0
     return conclude(rep, prop, traces, finish=finish)
 
